@@ -535,14 +535,20 @@ func runExpand(w *confgen.Worker, i int64, in *expandInput, hand *directed) {
 	if ex.TypedCycle {
 		// A cycle through a map/list value nests one level per round: the pinned code reports it, but only
 		// after ~11 s CPU and ~1 GiB. It is executed once (directed case, thorough tier) with raised limits.
-		if hand == nil || !w.Thorough() {
+		fanOut := hand != nil && strings.HasPrefix(hand.note, "C12-e")
+		if fanOut {
+			// the self-reference occurs twice: the value doubles every round. With the standard limits (200 000 retrievals /
+			// 256 MiB) this either ends with an error quickly or is a resolution that does not terminate.
+		} else if hand == nil || !w.Thorough() {
 			m := w.Start(i, in, pre)
 			w.Disarm()
 			m.Obs("not_executed:typed-nesting-cycle", 1)
 			w.Done()
 			return
 		}
-		w.RaiseLimits(600000, 4096, 5000000)
+		if !fanOut {
+			w.RaiseLimits(600000, 4096, 5000000)
+		}
 	}
 	m := w.Start(i, in, pre)
 	m.Evals = 1
@@ -1019,6 +1025,7 @@ var directedCases = []directed{
 	{"", "${vv:float}", "f:1.5", "1.50", false, false, ""}, {"", "x${vv:float}", `"x1.50"`, "x1.50", false, false, ""}, {"", "${vv:bool}", "true", "true", false, false, ""},
 	{"", "${vv:d1}", `"<D>"`, "<D>", false, false, ""},
 	{"", "${vv:cyc1}", "", ng, true, false, ""}, {"", "${vv:self}", "", ng, true, false, ""}, {"", "${vv:cycmap}", "", ng, true, false, ""},
+	{"", "${vv:cycfan}", "", ng, true, false, "C12-e cycle through a list that refers to itself twice"}, {"", "${vv:cycfanmap}", "", ng, true, false, "C12-e cycle through a map that refers to itself twice"},
 	{"", "${vv:$a}", "", ng, true, false, "$ inside the name"}, {"", "${vv:${vv:dollarname}}", "", ng, true, false, "$ inside the name after nested expansion"}, {"", "${vv:nope}", "", ng, true, false, ""},
 	{"", "${unknown:x}", "", ng, true, false, ""},
 	{"", "${", `"${"`, "${", false, false, ""}, {"", "${}", `"${}"`, "${}", false, false, ""}, {"", "${vv:a", `"${vv:a"`, "${vv:a", false, false, ""}, {"", "}${vv:a}", `"}A"`, "}A", false, false, ""},
